@@ -853,15 +853,19 @@ def corr_ops(ctx):
     cases = []
     for _ in range(2000 if ctx.quick else 30000):
         u = rng.choice(["", "/", "//"]) + "/".join(rng.choice(segs) for _ in range(rng.randint(1, 4)))
-        r = rng.choice([None, "/", "/t.html", "/a/t.html", "/a/b/t.html", "a/t.html", "/a//b/", "/a/../t.html"])
-        if u:
-            cases.append((u, r))
+        if rng.random() < 0.03:
+            u = ""
+        r = rng.choice([None, "/", "/t.html", "/a/t.html", "/a/b/t.html", "a/t.html", "/a//b/", "/a/../t.html", "t.html", ""])
+        cases.append((u, r))
     outs = drv.ask_many(["ns adjust %s %s" % (enc(u), "none" if r is None else enc(r)) for u, r in cases])
     for (u, r), o in zip(cases, outs):
         st["cases"] += 1
         lk._uri_cache.clear()
-        want = lk.adjust_uri(u, r)
-        if o != enc(want):
+        try:
+            want = enc(lk.adjust_uri(u, r))
+        except Exception as e:
+            want = "raised " + type(e).__name__
+        if o != want:
             ctx.disagree("corr.adjust_uri", {"input": u, "relativeto": r}, o, want)
 
 
